@@ -190,6 +190,25 @@ REPEAT_PATTERNS = ["a.*", "[a-c]+", "ab?c", "(a|b)c", "[^a]b", ".", "",
                    "[z-a]", "a{2,1}", "x{3,2}y", "[b-a]*", "a{7}", "[c-a]b", "\\p{Lu}a"]
 
 
+def _run_cli_inprocess(rng) -> None:
+    """One run of the command-line tool inside this process (as the repository's own tests drive it)."""
+    import io  # noqa: PLC0415
+    import sys  # noqa: PLC0415
+
+    from jsonpath_rfc9535 import cli  # noqa: PLC0415
+
+    old = sys.argv, sys.stdin, sys.stdout, sys.stderr
+    sys.argv = ["jsonpath-rfc9535", "-q", rng.choice(["$..a", "$.a", "$[?@.a]", "$..[?match(@, 'a.*')]"])]
+    sys.stdin = io.TextIOWrapper(io.BytesIO(b'{"a": [1, {"a": "ab"}]}'), encoding="utf-8")
+    sys.stdout, sys.stderr = io.StringIO(), io.StringIO()
+    try:
+        cli.main()
+    except BaseException:  # noqa: BLE001, S110 - SystemExit included
+        pass
+    finally:
+        sys.argv, sys.stdin, sys.stdout, sys.stderr = old
+
+
 def history_independence(chk: core.Check, tier: str, seed: int) -> None:
     """The same (query, document) on a fresh environment and in the middle of a long history on a long-lived
     one (other patterns, other queries, failed compilations in between): TLC checks that all outcomes coincide
@@ -222,6 +241,13 @@ def history_independence(chk: core.Check, tier: str, seed: int) -> None:
     for k, d in enumerate(docs):
         for q in battery:
             results[(q, k)] = [outcome(jp.JSONPathEnvironment(), q, d)]
+    # data nested 150 deep (beyond the default limit of 100): raising is part of the outcome that must not depend on history
+    deep = 0
+    for _ in range(150):
+        deep = [deep]
+    deep_qs = ["$..*", "$[0]..[0]", "$[?@..*]", "$[0][0]"]
+    for q in deep_qs:
+        results[(q, "deep")] = [outcome(jp.JSONPathEnvironment(), q, deep)]
     long_lived = [jp.JSONPathEnvironment(), jp]
     for env in long_lived:
         for _ in range(3 if tier == "quick" else 12):
@@ -231,7 +257,13 @@ def history_independence(chk: core.Check, tier: str, seed: int) -> None:
                 results[(q, k)].append(outcome(env, q, docs[k]))
                 if rng.random() < 0.1:
                     outcome(env, "$[?match(@.s, ", docs[k])          # a failed compilation in between
-    recs = [{"op": "repeat", "q": core.enc_text(q), "doc": edocs[k], "results": res} for (q, k), res in results.items()]
+                if rng.random() < 0.03:
+                    _run_cli_inprocess(rng)                            # the command-line front end used in the same process
+            for q in deep_qs:
+                results[(q, "deep")].append(outcome(env, q, deep))
+    recs = [{"op": "repeat", "q": core.enc_text(q), "doc": edocs[k], "results": res} for (q, k), res in results.items() if k != "deep"]
+    recs += [{"op": "repeat", "q": core.enc_text(q), "doc": core.enc_value([]), "nospec": True, "results": res}
+             for (q, k), res in results.items() if k == "deep"]
     recs += common.stream_records(jp, rounds=12 if tier == "quick" else 100)
     for r in recs:
         chk.nontrivial.add(("repeat", tuple(r["q"]), str(r["doc"])[-40:]))
